@@ -79,39 +79,62 @@ abbrev ISchema (d : Dialect) := { s : Schema // Inv s ∧ LenInv d s }
 
 def ISchema.empty (d : Dialect) : ISchema d := ⟨{}, inv_empty, lenInv_empty d⟩
 
-def ISchema.addTable {d} (s : ISchema d) (n : TName d) (e : Option (Name × Name)) : Except Err (ISchema d) :=
+/-- a successor schema: nothing that was registered has been removed or altered (`Mono`) -/
+abbrev MSchema {d : Dialect} (s : ISchema d) := { s' : ISchema d // Mono s.1 s'.1 }
+
+def ISchema.addTable {d} (s : ISchema d) (n : TName d) (e : Option (Name × Name)) : Except Err (MSchema s) :=
   match h : Schema.addTable s.1 n.n n.src e with
-  | .ok s' => .ok ⟨s', addTable_inv s.2.1 h, addTable_lenInv s.2.2 n.ok h⟩
+  | .ok s' => .ok ⟨⟨s', addTable_inv s.2.1 h, addTable_lenInv s.2.2 n.ok h⟩, addTable_mono h⟩
   | .error e => .error e
 
-def ISchema.addEntity {d} (s : ISchema d) (t : Table) (e r : Name) : Except Err (ISchema d) :=
+def ISchema.addEntity {d} (s : ISchema d) (t : Table) (e r : Name) : Except Err (MSchema s) :=
   match h : Schema.addEntity s.1 t e r with
-  | .ok s' => .ok ⟨s', addEntity_inv s.2.1 h, addEntity_lenInv s.2.2 h⟩
+  | .ok s' => .ok ⟨⟨s', addEntity_inv s.2.1 h, addEntity_lenInv s.2.2 h⟩, addEntity_mono h⟩
   | .error e => .error e
 
-def ISchema.addColumn {d} (s : ISchema d) (t : Name) (n : TName d) (notNull : Bool) : Except Err (ISchema d) :=
+def ISchema.addColumn {d} (s : ISchema d) (t : Name) (n : TName d) (notNull : Bool) :
+    Except Err { s' : MSchema s // HasCol s'.1.1 t n.n notNull } :=
   match h : Schema.addColumn s.1 t n.n n.src notNull with
-  | .ok s' => .ok ⟨s', addColumn_inv s.2.1 h, addColumn_lenInv s.2.2 n.ok h⟩
+  | .ok s' => .ok ⟨⟨⟨s', addColumn_inv s.2.1 h, addColumn_lenInv s.2.2 n.ok h⟩, (addColumn_mono h).1⟩, (addColumn_mono h).2⟩
   | .error e => .error e
 
 def ISchema.addIndex {d} (s : ISchema d) (t : Name) (arg : IdxArg) (cols : List Name) (isPk : PkKind)
-    (isUnique : Option Bool) (m2m : Bool) : Except Err (ISchema d) :=
+    (isUnique : Option Bool) (m2m : Bool) : Except Err (MSchema s) :=
   match h : Schema.addIndex d s.1 t arg cols isPk isUnique m2m with
-  | .ok s' => .ok ⟨s', addIndex_inv s.2.1 h, addIndex_lenInv s.2.2 h⟩
+  | .ok s' => .ok ⟨⟨s', addIndex_inv s.2.1 h, addIndex_lenInv s.2.2 h⟩, addIndex_mono h⟩
   | .error e => .error e
 
 def ISchema.addFk {d} (s : ISchema d) (child : Name) (fkName : Option Name) (cols : List Name) (parent : Name)
-    (parentCols : List Name) (index : IdxArg) : Except Err (ISchema d) :=
+    (parentCols : List Name) (index : IdxArg) : Except Err { s' : MSchema s // HasFk s'.1.1 child cols parent parentCols } :=
   match h : Schema.addFk d s.1 child fkName cols parent parentCols index with
-  | .ok s' => .ok ⟨s', addFk_inv s.2.1 h, addFk_lenInv s.2.2 h⟩
+  | .ok s' => .ok ⟨⟨⟨s', addFk_inv s.2.1 h, addFk_lenInv s.2.2 h⟩, (addFk_mono h).1⟩, (addFk_mono h).2⟩
   | .error e => .error e
 
-def ISchema.markM2m {d} (s : ISchema d) (t : Name) : ISchema d :=
-  ⟨Schema.markM2m s.1 t, markM2m_inv t s.2.1, markM2m_lenInv t s.2.2⟩
+def ISchema.markM2m {d} (s : ISchema d) (t : Name) : MSchema s :=
+  ⟨⟨Schema.markM2m s.1 t, markM2m_inv t s.2.1, markM2m_lenInv t s.2.2⟩, markM2m_mono s.1 t⟩
 
 /-! ### mutable attribute / entity state of the mapping run -/
 
 abbrev Key := Name × Name   -- (owner entity, attribute name)
+
+/-- log entry: attribute `attr` of entity `ent` is stored in the columns `cols` of `table`, NOT NULL = `notNull` -/
+structure Placed where
+  table : Name
+  ent : Name
+  attr : Name
+  cols : List Name
+  notNull : Bool
+  deriving Repr
+
+/-- log entry: the relationship attribute `attr` of `ent` is backed by a foreign key `child(cols) → parent(parentCols)` -/
+structure PlacedFk where
+  ent : Name
+  attr : Name
+  child : Name
+  cols : List Name
+  parent : Name
+  parentCols : List Name
+  deriving Repr
 
 structure St (d : Dialect) where
   schema : ISchema d
@@ -121,6 +144,12 @@ structure St (d : Dialect) where
   tbl : List (Key × TName d) := []              -- assignments to `attr.table`
   pk : List (Name × List (TName d)) := []       -- `entity._pk_columns_`
   entTable : List (Name × TName d) := []        -- `entity._table_` after the first loop
+  /-- ghost log (not in Pony): the columns `add_column` was called with for each attribute, and the foreign keys
+      `add_foreign_key` was called with for each relationship attribute -/
+  placed : List Placed := []
+  linked : List PlacedFk := []
+  placedOk : ∀ p ∈ placed, ∀ c ∈ p.cols, HasCol schema.1 p.table c p.notNull := by intro p hp; cases hp
+  linkedOk : ∀ p ∈ linked, HasFk schema.1 p.child p.cols p.parent p.parentCols := by intro p hp; cases hp
 
 def lookup {α β} [BEq α] (k : α) : List (α × β) → Option β
   | [] => none
@@ -149,6 +178,36 @@ def setChecked {d} (st : St d) (owner : Name) (a : Attr) : St d :=
   { st with checked := (owner, a.name) :: st.checked }
 
 def err {α} (cls tag : String) : Except Err α := .error ⟨cls, tag⟩
+
+/-- replace the schema by a successor; the logged facts survive because registry operations are monotone -/
+def St.setSchema {d} (st : St d) (m : MSchema st.schema) : St d :=
+  { st with schema := m.1,
+            placedOk := fun p hp c hc => m.2.cols _ _ _ (st.placedOk p hp c hc),
+            linkedOk := fun p hp => (st.linkedOk p hp).mono m.2 }
+
+/-- successor schema in which the columns `cols` have just been added to `table`: log them -/
+def St.place {d} (st : St d) (table ent attr : Name) (nn : Bool) (cols : List (TName d))
+    (m : { s' : MSchema st.schema // ∀ c ∈ cols, HasCol s'.1.1 table c.n nn }) : St d :=
+  { st with schema := m.1.1, placed := ⟨table, ent, attr, names cols, nn⟩ :: st.placed,
+            placedOk := by
+              intro p hp c hc
+              rcases List.mem_cons.mp hp with rfl | hp
+              · simp only [names, List.mem_map] at hc
+                obtain ⟨x, hx, rfl⟩ := hc
+                exact m.2 x hx
+              · exact m.1.2.cols _ _ _ (st.placedOk p hp c hc),
+            linkedOk := fun p hp => (st.linkedOk p hp).mono m.1.2 }
+
+/-- successor schema in which a foreign key has just been added: log it -/
+def St.link {d} (st : St d) (ent attr child : Name) (cols : List Name) (parent : Name) (parentCols : List Name)
+    (m : { s' : MSchema st.schema // HasFk s'.1.1 child cols parent parentCols }) : St d :=
+  { st with schema := m.1.1, linked := ⟨ent, attr, child, cols, parent, parentCols⟩ :: st.linked,
+            placedOk := fun p hp c hc => m.1.2.cols _ _ _ (st.placedOk p hp c hc),
+            linkedOk := by
+              intro p hp
+              rcases List.mem_cons.mp hp with rfl | hp
+              · exact m.2
+              · exact (st.linkedOk p hp).mono m.1.2 }
 
 /-- `get_default_column_names` with provenance -/
 def defaultColumnTNames (d : Dialect) (attr : Name) : Option (List Name) → List (TName d)
@@ -262,11 +321,20 @@ def getM2mColumns (D : Decls) (d : Dialect) (fuel : Nat) (st : St d) (owner : En
             .ok (rcols, st)
   | _, _ => err "Precondition" "set-without-reverse"
 
-def addColumns {d} (s : ISchema d) (t : Name) (notNull : Bool) : List (TName d) → Except Err (ISchema d)
-  | [] => .ok s
-  | c :: rest => match s.addColumn t c notNull with
-    | .ok s' => addColumns s' t notNull rest
+def addColumns {d} (s : ISchema d) (t : Name) (notNull : Bool) :
+    (cols : List (TName d)) → Except Err { s' : MSchema s // ∀ c ∈ cols, HasCol s'.1.1 t c.n notNull }
+  | [] => .ok ⟨⟨s, Mono.refl _⟩, by intro c hc; cases hc⟩
+  | c :: rest =>
+    match s.addColumn t c notNull with
     | .error e => .error e
+    | .ok s1 =>
+      match addColumns s1.1.1 t notNull rest with
+      | .error e => .error e
+      | .ok s2 => .ok ⟨⟨s2.1.1, s1.1.2.trans s2.1.2⟩, by
+          intro x hx
+          rcases List.mem_cons.mp hx with rfl | hx
+          · exact s2.1.2.cols _ _ _ s1.2
+          · exact s2.2 x hx⟩
 
 def digits (k : Nat) : Name := Nat.toDigits 10 k
 
@@ -309,7 +377,7 @@ def processM2m (D : Decls) (d : Dialect) (fuel : Nat) (st : St d) (e : Entity) (
         match st.schema.addTable tn none with
         | .error x => .error x
         | .ok sch =>
-          let st := { st with schema := sch }
+          let st := st.setSchema sch
           match getM2mColumns D d fuel st e a false with
           | .error x => .error x
           | .ok (c1, st) =>
@@ -325,9 +393,12 @@ def processM2m (D : Decls) (d : Dialect) (fuel : Nat) (st : St d) (e : Entity) (
                 match addColumns st.schema tn.n true (c1 ++ c2) with
                 | .error x => .error x
                 | .ok sch =>
-                  match sch.addIndex tn.n .none ((tableCols sch.1 tn.n).map (·.name)) .yes none false with
+                  let st := st.place tn.n e.name a.name true (c1 ++ c2) sch
+                  match st.schema.addIndex tn.n .none ((tableCols st.schema.1 tn.n).map (·.name)) .yes none false with
                   | .error x => .error x
-                  | .ok sch => .ok { st with schema := sch.markM2m tn.n }
+                  | .ok sch =>
+                    let st := st.setSchema sch
+                    .ok (st.setSchema (st.schema.markM2m tn.n))
 
 /-- one attribute in the first loop of `generate_mapping` -/
 def processAttr1 (D : Decls) (d : Dialect) (fuel : Nat) (st : St d) (e : Entity) (tname : Name) (a : Attr) : Except Err (St d) :=
@@ -359,7 +430,7 @@ def processAttr1 (D : Decls) (d : Dialect) (fuel : Nat) (st : St d) (e : Entity)
       | .ok (cols, st) =>
         match addColumns st.schema tname (!(nl.getD false)) cols with
         | .error x => .error x
-        | .ok sch => .ok { st with schema := sch }
+        | .ok sch => .ok (st.place tname e.name a.name (!(nl.getD false)) cols sch)
 
 def forM {σ α} (f : σ → α → Except Err σ) : σ → List α → Except Err σ
   | s, [] => .ok s
@@ -390,15 +461,15 @@ def processEntity1 (D : Decls) (d : Dialect) (fuel : Nat) (st : St d) (e : Entit
     match tn with
     | .error x => .error x
     | .ok tn =>
-      let st := { st with entTable := (e.name, tn) :: st.entTable }
-      let sch : Except Err (ISchema d) :=
+      let st : St d := { st with entTable := (e.name, tn) :: st.entTable }
+      let sch : Except Err (MSchema st.schema) :=
         match findTable st.schema.1 tn.n with
         | none => st.schema.addTable tn (some (e.name, e.root))
         | some t => st.schema.addEntity t e.name e.root
       match sch with
       | .error x => .error x
       | .ok sch =>
-        match forM (fun st a => processAttr1 D d fuel st e tn.n a) { st with schema := sch } e.attrs with
+        match forM (fun st a => processAttr1 D d fuel st e tn.n a) (st.setSchema sch) e.attrs with
         | .error x => .error x
         | .ok st =>
           let pkSet := match findTable st.schema.1 tn.n with | some t => t.pkSet | none => false
@@ -406,12 +477,12 @@ def processEntity1 (D : Decls) (d : Dialect) (fuel : Nat) (st : St d) (e : Entit
             if pkc.length == 1 && (match e.pkAttrs.head? with
                                     | some an => (match findAttr D e.root an with | some a => a.auto | none => false)
                                     | none => false) then .auto else .yes
-          let sch : Except Err (ISchema d) :=
-            if pkSet then .ok st.schema else st.schema.addIndex tn.n .none (names pkc) isPk none false
+          let sch : Except Err (MSchema st.schema) :=
+            if pkSet then .ok ⟨st.schema, Mono.refl _⟩ else st.schema.addIndex tn.n .none (names pkc) isPk none false
           match sch with
           | .error x => .error x
           | .ok sch =>
-            let st := { st with schema := sch }
+            let st := st.setSchema sch
             let addIx (st : St d) (ix : IndexDecl) : Except Err (St d) :=
               if ix.isPk then .ok st
               else
@@ -420,7 +491,7 @@ def processEntity1 (D : Decls) (d : Dialect) (fuel : Nat) (st : St d) (e : Entit
                   | _ => .none
                 match st.schema.addIndex tn.n arg (indexColumns D st ix) .no (some ix.isUnique) false with
                 | .error x => .error x
-                | .ok sch => .ok { st with schema := sch }
+                | .ok sch => .ok (st.setSchema sch)
             forM addIx st e.indexes
 
 /-- one attribute in the second loop (foreign keys and attribute indexes, core.py:1098-1134) -/
@@ -441,11 +512,13 @@ def processAttr2 (D : Decls) (d : Dialect) (st : St d) (e : Entity) (tname : Nam
             match st.schema.addFk m2m.n r.fkName (names (curCols st tgt r)) tname (pkOf e.name) a.index with
             | .error x => .error x
             | .ok sch =>
+              let rc := names (curRCols st e.name a)
+              let st := st.link e.name a.name m2m.n (names (curCols st tgt r)) tname (pkOf e.name) sch
               if symmetric e.name a then
-                match sch.addFk m2m.n a.reverseFkName (names (curRCols st e.name a)) tname (pkOf e.name) a.reverseIndex with
+                match st.schema.addFk m2m.n a.reverseFkName rc tname (pkOf e.name) a.reverseIndex with
                 | .error x => .error x
-                | .ok sch => .ok { st with schema := sch }
-              else .ok { st with schema := sch }
+                | .ok sch => .ok (st.link e.name a.name m2m.n rc tname (pkOf e.name) sch)
+              else .ok st
     | _, _ => err "Precondition" "set-without-reverse"
   else
     match a.target, a.reverse with
@@ -457,14 +530,14 @@ def processAttr2 (D : Decls) (d : Dialect) (st : St d) (e : Entity) (tname : Nam
           -- `fk_name = attr.fk_name if attr.fk_name is not None else attr.reverse.fk_name`
           match st.schema.addFk tname (match a.fkName with | some n => some n | none => r.fkName) cols pt.n (pkOf tgt) a.index with
           | .error x => .error x
-          | .ok sch => .ok { st with schema := sch }
+          | .ok sch => .ok (st.link e.name a.name tname cols pt.n (pkOf tgt) sch)
         | _, _ => err "Precondition" "unlinked-reverse"
     | _, _ =>
       if (a.index = .none ∨ a.index = .false) ∨ cols = [] then .ok st
       else
         match st.schema.addIndex tname a.index cols .no a.unique false with
         | .error x => .error x
-        | .ok sch => .ok { st with schema := sch }
+        | .ok sch => .ok (st.setSchema sch)
 
 def processEntity2 (D : Decls) (d : Dialect) (st : St d) (e : Entity) : Except Err (St d) :=
   match lookup e.name st.entTable with
